@@ -533,6 +533,28 @@ pub fn jbig_cycle(rng: &mut Rng, layout: &Layout) -> DocSpec {
     b.finish(catalog, &layout, rng)
 }
 
+/// Hostile: 70 /Pages nodes in a /Parent chain without a cycle (more than the 64 typed loads the
+/// library lets nest), beside a healthy page. Node k is object 3 + k; the bottom node holds a leaf.
+pub fn long_parents(rng: &mut Rng, layout: &Layout) -> DocSpec {
+    let mut b = Builder::new();
+    let catalog = b.reserve();
+    let pages = b.reserve();
+    let n = 70;
+    let nodes: Vec<u32> = (0..n).map(|_| b.reserve()).collect();
+    let leaf = b.add(Val::dict(vec![("Type", Val::name("Page")), ("Parent", Val::r(nodes[n - 1])), ("MediaBox", rect(0, 0, 10, 10)), ("Resources", Val::dict(vec![]))]));
+    let healthy = b.add(Val::dict(vec![("Type", Val::name("Page")), ("Parent", Val::r(pages)), ("MediaBox", rect(0, 0, 100, 100)), ("Resources", Val::dict(vec![]))]));
+    for i in 0..n {
+        let kid = if i + 1 < n { nodes[i + 1] } else { leaf };
+        let parent = if i == 0 { pages } else { nodes[i - 1] };
+        b.put(nodes[i], Val::dict(vec![("Type", Val::name("Pages")), ("Parent", Val::r(parent)), ("Kids", Val::Arr(vec![Val::r(kid)])), ("Count", Val::Int(1))]));
+    }
+    b.put(pages, Val::dict(vec![("Type", Val::name("Pages")), ("Kids", Val::Arr(vec![Val::r(healthy), Val::r(nodes[0])])), ("Count", Val::Int(2))]));
+    b.put(catalog, Val::dict(vec![("Type", Val::name("Catalog")), ("Pages", Val::r(pages))]));
+    let mut layout = layout.clone();
+    layout.keep_direct.push(catalog);
+    b.finish(catalog, &layout, rng)
+}
+
 /// A page tree as deep as `File::get_page` accepts (the root plus up to 15 nested /Pages nodes),
 /// with a leaf at the bottom and one at every third level.
 pub fn deep_tree(rng: &mut Rng, layout: &Layout) -> DocSpec {
@@ -586,6 +608,7 @@ pub enum Family {
     Dangling,
     SharedHeader,
     JbigCycle,
+    LongParents,
 }
 impl Family {
     pub fn name(&self) -> &'static str {
@@ -598,6 +621,7 @@ impl Family {
             Family::Dangling => "dangling",
             Family::SharedHeader => "shared_header",
             Family::JbigCycle => "jbig_cycle",
+            Family::LongParents => "long_parents",
         }
     }
 }
@@ -615,6 +639,7 @@ pub fn generate(family: &Family, rng: &mut Rng) -> DocSpec {
         Family::Dangling => dangling(rng, &layout),
         Family::SharedHeader => shared_header(rng, &layout),
         Family::JbigCycle => jbig_cycle(rng, &layout),
+        Family::LongParents => long_parents(rng, &layout),
         Family::RichEncrypted => {
             let o = RichOpts::random(rng);
             let mut layout = layout;
